@@ -136,6 +136,20 @@ impl TlsRecordsParser {
     }
 }
 
+/// Verification-only accessors (built only with `--cfg tls_parser_verif`)
+#[cfg(tls_parser_verif)]
+impl TlsRecordsParser {
+    /// Contents of the internal defragmentation buffer
+    pub fn verif_defrag_buffer(&self) -> &[u8] {
+        &self.record_defrag_buffer
+    }
+
+    /// Record type of the defragmentation in progress, if any
+    pub fn verif_current_record_type(&self) -> Option<TlsRecordType> {
+        self.current_record_type
+    }
+}
+
 #[cfg(test)]
 mod tests {
     use crate::{parse_tls_raw_record, TlsMessageHandshake, TlsVersion};
